@@ -290,6 +290,17 @@ def prove_paths(res, qualname, table, posts, default_raises=True):
         res.functions[qualname] = 'out-of-subset'
         res.notes.append('%s: out-of-subset (%s) -- the bounded stand-in decides for this run' % (qualname, exc))
         return None
+    except (KeyError, IndexError, AttributeError, TypeError) as exc:
+        # a path postcondition could not even read the shape it is stated over (a parameter or local it names is gone, an effect it
+        # indexes is missing): the code has left the recognised form -- no statement for this run, never a verdict
+        import traceback
+        where = traceback.extract_tb(exc.__traceback__)[-1]
+        if 'kit_e' not in where.filename:
+            raise
+        res.functions[qualname] = 'out-of-subset'
+        res.notes.append('%s: out-of-subset (postcondition %s cannot read the code shape: %s: %s) -- the bounded stand-in decides for this run'
+                         % (qualname, where.name, type(exc).__name__, exc))
+        return None
     if not obls:
         raise CheckerDefect('no path obligations generated for %s' % qualname)
     if not any(p.outcome == 'return' for p in paths):
